@@ -1,4 +1,5 @@
 import Pog.Props.C20
+import Pog.Props.Resolve
 import Pog.Lemmas.Imports
 import Pog.Lemmas.Annot
 import Pog.Lemmas.AliasCover
@@ -42,6 +43,19 @@ import Pog.Lemmas.AliasCover
         aliases_cover_raises_counterexample        ✗ witness declared 302 / 101: `Error302` imported, never defined
         uncovered_iff                              exactly the raised codes outside [400, 600) are uncovered
 -/
+/-
+  C01, glue "every name an annotation uses has an import request" for the schema type resolver (Pog/Model/Resolve.lean,
+  `OpenAPISchemaResolver.resolve_schema`, tied by vf/corr/resolve.py; tables `formatMapping` / `formatImports` regenerated from the
+  source): proved in Pog/Props/Resolve.lean and claimed here.
+    resolve_imports_cover_partial          every unquoted name of a resolved annotation is a builtin or was passed to add_import
+                                           (for every schema tree, registry, current file) - except the two bare returns below
+    ✗ …_counterexample_named_no_stem / _enum_underlying / _enum_nameless   the bare returns (no import requested)
+    format_table_ok / format_table_cover   `decide` over the regenerated table: every format's python type is a builtin or imported
+    self_import_only_in_models_package, named_forward_ref_iff_self_import, no_forward_ref_outside_models
+                                           a quoted forward reference WITHOUT import is produced only inside `models/<stem>.py`
+                                           (F60 repaired: an endpoint module named like a model imports the model)
+-/
+-- INDEX Pog.ResolveProps: format_table_ok, format_table_cover, resolve_imports_cover_partial, resolve_imports_cover_counterexample_named_no_stem, resolve_imports_cover_counterexample_enum_underlying, resolve_imports_cover_counterexample_enum_nameless, self_import_only_in_models_package, named_forward_ref_iff_self_import, no_forward_ref_outside_models, resolve_monotone_fuel
 namespace Pog.C01
 open Pog Pog.Imp Pog.Annot Pog.AliasCover
 
